@@ -26,8 +26,17 @@ STR_BACK = {"x": 1, "y": 2}
 MAX_ROWS = 4
 
 
+TYPES = {}     # column name -> True when the column holds strings; refreshed from the frame before every call
+
+
+def refresh_types(dm):
+    TYPES.clear()
+    for c in dm._data.columns:
+        TYPES[str(c)] = dm._data[c].dtype.kind != "f"
+
+
 def is_str_col(col):
-    return col.startswith("name")
+    return TYPES.get(col, col.startswith("name"))
 
 
 def enc(col, k):
@@ -69,6 +78,9 @@ def rows_of(res):
 
 def construct(table):
     cols = table["cols"]
+    TYPES.clear()
+    for c in cols:
+        TYPES[c] = c.startswith("name")
     data = [[enc(c, k) for c, k in zip(cols, row)] for row in table["rows"]]
     return DataModel(data, columns=cols)
 
@@ -77,6 +89,7 @@ def apply(dm, o):
     """Apply one operation to the real object; returns (dm', event).  slice returns a new object."""
     op = o["op"]
     res, crash = [], None
+    refresh_types(dm)
     try:
         if op == "modify_element":
             dm.modify_element(o["lab"], o["col"], enc(o["col"], o["v"]))
@@ -93,6 +106,8 @@ def apply(dm, o):
             dm.remove_rows(o["col"], enc(o["col"], o["v"]))
         elif op == "rename_column":
             dm.rename_column({o["old"]: o["new"]})
+        elif op == "rename_map":
+            dm.rename_column({a: b for a, b in o["map"]})
         elif op == "slice":
             dm = dm.slice(o["a"], o["b"])
         elif op == "reset_index":
@@ -138,7 +153,7 @@ def apply(dm, o):
     return dm, ev
 
 
-ALL_OPS = {"modify_element", "modify_row", "modify_column", "append", "remove_rows", "rename_column", "slice",
+ALL_OPS = {"rename_map", "modify_element", "modify_row", "modify_column", "append", "remove_rows", "rename_column", "slice",
            "reset_index", "fillna", "access", "column", "index", "bundle", "index_first", "index_dm", "iter", "len",
            "read_block", "read_block_with", "boundary"}
 
@@ -163,6 +178,11 @@ def mutations(fr):
         out.append({"op": "rename_column", "old": "name", "new": "name2"})
     elif "name2" in cols:
         out.append({"op": "rename_column", "old": "name2", "new": "name"})
+    if len(cols) == 2:
+        # one rename call whose mapping re-uses names: a swap, and a chain (first column takes the second's old name)
+        out.append({"op": "rename_map", "map": [[cols[0], cols[1]], [cols[1], cols[0]]]})
+        fresh = [c for c in ("name3", "name4", "name5") if c not in cols][0]
+        out.append({"op": "rename_map", "map": [[cols[0], cols[1]], [cols[1], fresh]]})
     if n >= 2:
         out.append({"op": "slice", "a": 1, "b": n})
         out.append({"op": "slice", "a": 0, "b": n - 1})
